@@ -232,6 +232,25 @@ pub fn execute_case(scen: &dyn Scenario, case: &Value, trace: bool) -> (Ctx, Res
     if scen.isolated() && !IN_CHILD.load(Ordering::SeqCst) {
         return execute_case_in_child(scen, case, trace);
     }
+    // every case runs on a thread of its own: whatever a call leaves behind in thread-local state
+    // (a scratch buffer, a cache) cannot travel from one case to the next, so a case is a pure
+    // function of its file whatever ran before it on the worker - and a replay in a fresh process
+    // sees exactly what the original run saw
+    if scen.light() {
+        return execute_case_here(scen, case, trace);
+    }
+    let stack = if IN_CHILD.load(Ordering::SeqCst) { 8 << 20 } else { 2 << 20 };
+    std::thread::scope(|s| {
+        std::thread::Builder::new()
+            .stack_size(stack)
+            .spawn_scoped(s, || execute_case_here(scen, case, trace))
+            .expect("spawn case thread")
+            .join()
+            .unwrap_or_else(|p| (Ctx::default(), Ok(()), Some(format!("case thread died: {}", sut::take_panic_message(p)))))
+    })
+}
+
+fn execute_case_here(scen: &dyn Scenario, case: &Value, trace: bool) -> (Ctx, Result<(), Violation>, Option<String>) {
     let mut ctx = Ctx::default();
     if trace {
         ctx.trace = Some(Vec::new());
